@@ -187,7 +187,7 @@ inductive Prog (α : Type) : Type
 inductive Outcome (α : Type)
   | done (a : α)
   | panic
-  deriving Repr
+  deriving Repr, DecidableEq
 
 /-- run a client on a read buffer (over its schedule) -/
 def runRB {α : Type} : Prog α → RB → Outcome α
@@ -210,6 +210,14 @@ def runFull {α : Type} : Prog α → Sched → α
     match readFull n s with
     | (d, none, s') => runFull (k (.ok d)) s'
     | (_, some e, s') => runFull (k (.error e)) s'
+
+/-- as `runFull`, also counting the bytes pulled from the reader (every `nr` of every `ReadFull`) -/
+def runFullN {α : Type} : Prog α → Sched → Nat → α × Nat
+  | .ret a, _, n => (a, n)
+  | .read m k, s, n =>
+    match readFull m s with
+    | (d, none, s') => runFullN (k (.ok d)) s' (n + d.length)
+    | (d, some e, s') => runFullN (k (.error e)) s' (n + d.length)
 
 /-- does the exact run meet a request that the stream can serve only in part (the stream ends inside a request)? -/
 def truncated {α : Type} : Prog α → Bytes → Bool
